@@ -24,6 +24,7 @@ import (
 	"time"
 
 	"github.com/oxia-db/oxia/common/process"
+	"github.com/oxia-db/oxia/common/vhook"
 	"github.com/oxia-db/oxia/proto"
 )
 
@@ -108,6 +109,9 @@ func (s *session) delete() error {
 	})
 	if err != nil {
 		return err
+	}
+	if vhook.Enabled {
+		vhook.At("session.delete.listed", s.sm.leaderController, int64(s.id), keys)
 	}
 	// Delete ephemerals
 	var deletes []*proto.DeleteRequest
